@@ -13,6 +13,8 @@ from checks import c05, c05_gen
 
 ENUM_CFG = ("INIT C07EnumInit\nNEXT C07LongNext\nCONSTRAINT C07EnumEmit\nINVARIANT Invariants\nINVARIANT EnumTerminates\n"
             "PROPERTY LogAppendOnly\nPROPERTY CatchGetsThrown\nCHECK_DEADLOCK FALSE\n")
+# records of family RP are marked `rounds`: C07JudgeNext runs them k steps per transition under the larger step bound
+JUDGE_NEXT = "NEXT C07JudgeNext"
 SHIFT_CFG = "INIT JudgeInit\nNEXT MachineNext\nCONSTRAINT ShiftEmit\nINVARIANT Invariants\nCHECK_DEADLOCK FALSE\n"
 
 
@@ -29,9 +31,19 @@ def reports_locations(prog):
     return walk(prog)
 
 
+def judge(rep, recs):
+    """c05.judge (three-way verdict, TLC decides) with C07's transition relation"""
+    saved = (c05.JUDGE_REF_CFG, c05.JUDGE_ASIS_CFG)
+    c05.JUDGE_REF_CFG, c05.JUDGE_ASIS_CFG = (x.replace("NEXT MachineNext", JUDGE_NEXT) for x in saved)
+    try:
+        return c05.judge(rep, "C07", recs, enumerated=False)
+    finally:
+        c05.JUDGE_REF_CFG, c05.JUDGE_ASIS_CFG = saved
+
+
 def run(rep):
     fams = os.environ.get("C07_FAMS")
-    cases = c05.enumerate_programs(rep, "C07", rep.tier, cfg=ENUM_CFG, env={"FAMS": fams or "TS FO ER EL"})
+    cases = c05.enumerate_programs(rep, "C07", rep.tier, cfg=ENUM_CFG, env={"FAMS": fams or "TS FO ER EL RP"})
     if len(cases) < 300 and not fams:
         raise Machinery("enumeration produced only %d programs" % len(cases))
     cnt = {}
@@ -56,13 +68,16 @@ def run(rep):
     results = c05.run_engine(rep, allc)
     recs = [{"id": c["id"], "prog": c["prog"], "log": results[c["id"]]["log"], "out": results[c["id"]]["out"],
              "pos": results[c["id"]]["pos"]} for c in allc]
-    verdicts = c05.judge(rep, "C07", recs, enumerated=False)
+    for c, r in zip(allc, recs):
+        if c["fam"] == "RP":
+            r["rounds"] = True
+    verdicts = judge(rep, recs)
     for c in cases + shifted:
         if verdicts[c["id"]]["v"] == "skip":
             raise Machinery("reference machine could not run an enumerated program (%s): %s" % (verdicts[c["id"]].get("why"), c["par"]))
     c05.report(rep, allc, results, verdicts)
     # code -> spec: instruction traces of the enumerated programs against the JsVM throw rule (JsVM_Trace)
-    c05.trace_stage(rep, cases, int(os.environ.get("C07_NTRACE", "300" if rep.tier == "quick" else "2000")))
+    c05.trace_stage(rep, [c for c in cases if (c.get("steps") or 0) <= 1600], int(os.environ.get("C07_NTRACE", "300" if rep.tier == "quick" else "2000")))
     # shift law, judged on pairs (base rendering, shifted rendering)
     srecs = []
     for c in shifted:
